@@ -7,6 +7,8 @@ import (
 	"strings"
 
 	"github.com/bufbuild/buf/private/bufpkg/bufconfig"
+	"github.com/bufbuild/buf/private/bufpkg/bufparse"
+	"github.com/bufbuild/buf/private/bufpkg/bufplugin"
 	"github.com/bufbuild/buf/private/pkg/uuidutil"
 	"github.com/bufbuild/verifharness/internal/hx"
 	"github.com/bufbuild/verifharness/internal/nd"
@@ -104,6 +106,7 @@ type yLockDepV1 struct {
 type yLockV1 struct {
 	Version string       `yaml:"version,omitempty"`
 	Deps    []yLockDepV1 `yaml:"deps,omitempty"`
+	Plugins []yLockDepV2 `yaml:"plugins,omitempty"` // not a key of v1beta1/v1 files: the reader must reject it
 }
 
 type yLockDepV2 struct {
@@ -115,6 +118,42 @@ type yLockDepV2 struct {
 type yLockV2 struct {
 	Version string       `yaml:"version,omitempty"`
 	Deps    []yLockDepV2 `yaml:"deps,omitempty"`
+	Plugins []yLockDepV2 `yaml:"plugins,omitempty"`
+}
+
+// gLockPlugin: a `plugins:` entry with the verdicts of the library parsers (parameters of the model).
+type gLockPlugin struct {
+	Name        string
+	NameValid   bool
+	Commit      string
+	CommitValid bool
+	Digest      string
+	DigestValid bool
+}
+
+func mkLockPlugin(name, commit, digest string) gLockPlugin {
+	p := gLockPlugin{Name: name, Commit: commit, Digest: digest}
+	if name != "" {
+		_, err := bufparse.ParseFullName(name)
+		p.NameValid = err == nil
+	}
+	if commit != "" {
+		_, err := uuidutil.FromDashless(commit)
+		p.CommitValid = err == nil
+	}
+	if digest != "" {
+		_, err := bufplugin.ParseDigest(digest)
+		p.DigestValid = err == nil
+	}
+	return p
+}
+
+func lockPluginsNode(ps []gLockPlugin) nd.Node {
+	xs := []nd.Node{}
+	for _, p := range ps {
+		xs = append(xs, nd.L(nd.A(p.Name), nd.B(p.NameValid), nd.A(p.Commit), nd.B(p.CommitValid), nd.A(p.Digest), nd.B(p.DigestValid)))
+	}
+	return nd.L(xs...)
 }
 
 func hexStr(r *hx.Rand, n int) string {
@@ -146,7 +185,15 @@ func canonLock(f bufconfig.BufLockFile) (nd.Node, error) {
 		}
 		xs = append(xs, nd.L(nd.A(k.FullName().Registry()), nd.A(k.FullName().Owner()), nd.A(k.FullName().Name()), nd.A(uuidutil.ToDashless(k.CommitID())), nd.A(dg.String())))
 	}
-	return nd.L(nd.A(f.FileVersion().String()), nd.L(xs...)), nil
+	ps := []nd.Node{}
+	for _, k := range f.RemotePluginKeys() {
+		dg, err := k.Digest()
+		if err != nil {
+			return nd.Node{}, err
+		}
+		ps = append(ps, nd.L(nd.A(k.FullName().String()), nd.A(uuidutil.ToDashless(k.CommitID())), nd.A(dg.String())))
+	}
+	return nd.L(nd.A(f.FileVersion().String()), nd.L(xs...), nd.L(ps...)), nil
 }
 
 func digestClass(s string) string {
@@ -196,9 +243,38 @@ func runLock(run *hx.Run, r *hx.Rand, n int) {
 			}
 			ds = append(ds, d)
 		}
+		// plugins: section (v2; rarely also put into a v1beta1/v1 file, which must be rejected)
+		var ps []gLockPlugin
+		if (ver == "v2" && rr.Chance(1, 2)) || (ver != "v2" && rr.Chance(1, 12)) {
+			for j, m := 0, 1+rr.Intn(3); j < m; j++ {
+				name := hx.Pick(rr, []string{"buf.build", "example.com"}) + "/" + hx.Pick(rr, owners) + "/" + hx.Pick(rr, []string{"plug-a", "plug-b", "go", "lint"})
+				commit := hexStr(rr, 32)
+				digest := "p1:" + hexStr(rr, 128)
+				switch {
+				case rr.Chance(1, 25):
+					name = hx.Pick(rr, []string{"", "acme/plug", "buf.build/acme", "buf.build/acme/p/q"})
+				case rr.Chance(1, 25):
+					commit = hx.Pick(rr, []string{"", "xyz", hexStr(rr, 31)})
+				case rr.Chance(1, 15):
+					digest = hx.Pick(rr, []string{"", "p1:abcd", "b5:" + hexStr(rr, 128), "shake256:" + hexStr(rr, 128), "p2:" + hexStr(rr, 128), "p1:zz", "p1" + hexStr(rr, 128)})
+				}
+				ps = append(ps, mkLockPlugin(name, commit, digest))
+			}
+			if len(ps) > 1 && rr.Chance(1, 10) {
+				ps[1].Name, ps[1].NameValid = ps[0].Name, ps[0].NameValid // duplicate plugin name
+			}
+			run.Count("lock:" + ver + ":with-plugins")
+		}
+		yps := []yLockDepV2{}
+		for _, p := range ps {
+			yps = append(yps, yLockDepV2{p.Name, p.Commit, p.Digest})
+		}
+		if len(yps) == 0 {
+			yps = nil
+		}
 		var data []byte
 		if ver == "v2" {
-			y := yLockV2{Version: ver}
+			y := yLockV2{Version: ver, Plugins: yps}
 			for _, d := range ds {
 				name := d.Remote + "/" + d.Owner + "/" + d.Repo
 				if d.Owner == "" {
@@ -208,13 +284,13 @@ func runLock(run *hx.Run, r *hx.Rand, n int) {
 			}
 			data = mustYAML(y)
 		} else {
-			y := yLockV1{Version: ver}
+			y := yLockV1{Version: ver, Plugins: yps}
 			for _, d := range ds {
 				y.Deps = append(y.Deps, yLockDepV1{Remote: d.Remote, Owner: d.Owner, Repository: d.Repo, Commit: d.Commit, Digest: d.Digest})
 			}
 			data = mustYAML(y)
 		}
-		line := "lock\t" + ver + "\t" + lockDepsNode(ds).String()
+		line := "lock\t" + ver + "\t" + lockDepsNode(ds).String() + "\t" + lockPluginsNode(ps).String()
 		replay := fmt.Sprintf("%s --seed %d --tier %s --out <dir>   # section lock case %d; document:\n%s", os.Args[0], run.Seed, run.Tier, i, data)
 		f1, err := bufconfig.ReadBufLockFile(ctx, bytes.NewReader(data), "buf.lock")
 		if err != nil {
@@ -235,9 +311,13 @@ func runLock(run *hx.Run, r *hx.Rand, n int) {
 		}
 		// re-parse the written file into the structured form
 		var wds []gLockDep
+		var wps []gLockPlugin
 		if ver == "v2" {
 			var y yLockV2
 			if err := yaml.Unmarshal(w1.Bytes(), &y); err == nil {
+				for _, p := range y.Plugins {
+					wps = append(wps, mkLockPlugin(p.Name, p.Commit, p.Digest))
+				}
 				for _, d := range y.Deps {
 					parts := strings.SplitN(d.Name, "/", 3)
 					for len(parts) < 3 {
@@ -263,13 +343,13 @@ func runLock(run *hx.Run, r *hx.Rand, n int) {
 			c2, _ := canonLock(f2)
 			if c2.String() != c1.String() {
 				third = c2.String()
-				failC(run, hx.OracleFailure{Class: "lock-roundtrip-changed", What: "buf.lock dependencies / pinned digests changed over read/write/read", Input: string(data), Replay: replay})
+				failC(run, hx.OracleFailure{Class: "lock-roundtrip-changed", What: "buf.lock dependencies / plugins / pinned digests changed over read/write/read", Input: string(data), Replay: replay})
 			}
 			var w2 bytes.Buffer
 			if err := bufconfig.WriteBufLockFile(&w2, f2); err != nil || !bytes.Equal(w1.Bytes(), w2.Bytes()) {
 				failC(run, hx.OracleFailure{Class: "lock-write-not-idempotent", What: "second write differs", Input: string(data), Replay: replay})
 			}
 		}
-		run.Case(line, "ok "+c1.String()+" "+lockDepsNode(wds).String()+" "+third, len(ds) > 0)
+		run.Case(line, "ok "+c1.String()+" "+lockDepsNode(wds).String()+" "+lockPluginsNode(wps).String()+" "+third, len(ds)+len(ps) > 0)
 	}
 }
